@@ -7,6 +7,7 @@ import (
 	"fmt"
 	"sort"
 	"strconv"
+	"strings"
 
 	"github.com/robfig/soy/data"
 )
@@ -677,7 +678,12 @@ type FloatNode struct {
 }
 
 func (n *FloatNode) String() string {
-	return strconv.FormatFloat(n.Value, 'g', -1, 64)
+	var str = strconv.FormatFloat(n.Value, 'g', -1, 64)
+	// a float literal needs a decimal point or an exponent: 1.0, not 1.
+	if !strings.ContainsAny(str, ".eIN") {
+		str += ".0"
+	}
+	return str
 }
 
 type StringNode struct {
@@ -760,7 +766,7 @@ func (n *MapLiteralNode) String() string {
 		if i > 0 {
 			expr += ", "
 		}
-		expr += fmt.Sprintf("'%s': %s", k, n.Items[k].String())
+		expr += quoteString(k) + ": " + n.Items[k].String()
 	}
 	return expr + "]"
 }
@@ -847,7 +853,7 @@ type NotNode struct {
 }
 
 func (n *NotNode) String() string {
-	return "not " + n.Arg.String()
+	return "not " + operandString(n.Arg, precUnary)
 }
 
 func (n *NotNode) Children() []Node {
@@ -860,7 +866,12 @@ type NegateNode struct {
 }
 
 func (n *NegateNode) String() string {
-	return "-" + n.Arg.String()
+	switch n.Arg.(type) {
+	case *IntNode, *FloatNode:
+		// "-5" would be read back as a negative literal.
+		return "-(" + n.Arg.String() + ")"
+	}
+	return "-" + operandString(n.Arg, precUnary)
 }
 
 func (n *NegateNode) Children() []Node {
@@ -874,7 +885,10 @@ type BinaryOpNode struct {
 }
 
 func (n *BinaryOpNode) String() string {
-	return n.Arg1.String() + " " + n.Name + " " + n.Arg2.String()
+	// binary operators associate to the left: the right operand needs
+	// parentheses already at equal precedence.
+	var prec = binaryPrecedence[n.Name]
+	return operandString(n.Arg1, prec) + " " + n.Name + " " + operandString(n.Arg2, prec+1)
 }
 
 func (n *BinaryOpNode) Children() []Node {
@@ -904,7 +918,107 @@ type TernNode struct {
 }
 
 func (n *TernNode) String() string {
-	return n.Arg1.String() + "?" + n.Arg2.String() + ":" + n.Arg3.String()
+	// (spaces keep "?" apart from a following "." "[" or ":".)  A ternary as the
+	// condition or the first branch must be parenthesized; the last branch
+	// extends as far as possible anyway.
+	return operandString(n.Arg1, precElvis) + " ? " + operandString(n.Arg2, precElvis) + " : " + n.Arg3.String()
+}
+
+// Operator precedence, as the parser implements it, for printing expressions
+// with the parentheses that are needed to parse them back.
+const (
+	precTernary = iota - 1
+	precElvis
+	precOr
+	precAnd
+	precCompare
+	precAdd
+	precMul
+	precUnary
+	precPrimary
+)
+
+var binaryPrecedence = map[string]int{
+	"?:": precElvis,
+	"or": precOr, "and": precAnd,
+	"==": precCompare, "!=": precCompare, "<": precCompare, "<=": precCompare, ">": precCompare, ">=": precCompare,
+	"+": precAdd, "-": precAdd,
+	"*": precMul, "/": precMul, "%": precMul,
+}
+
+func precedenceOf(n Node) int {
+	switch n := n.(type) {
+	case *TernNode:
+		return precTernary
+	case *NotNode, *NegateNode:
+		return precUnary
+	case *MulNode:
+		return binaryPrecedence[n.Name]
+	case *DivNode:
+		return binaryPrecedence[n.Name]
+	case *ModNode:
+		return binaryPrecedence[n.Name]
+	case *AddNode:
+		return binaryPrecedence[n.Name]
+	case *SubNode:
+		return binaryPrecedence[n.Name]
+	case *EqNode:
+		return binaryPrecedence[n.Name]
+	case *NotEqNode:
+		return binaryPrecedence[n.Name]
+	case *GtNode:
+		return binaryPrecedence[n.Name]
+	case *GteNode:
+		return binaryPrecedence[n.Name]
+	case *LtNode:
+		return binaryPrecedence[n.Name]
+	case *LteNode:
+		return binaryPrecedence[n.Name]
+	case *OrNode:
+		return binaryPrecedence[n.Name]
+	case *AndNode:
+		return binaryPrecedence[n.Name]
+	case *ElvisNode:
+		return binaryPrecedence[n.Name]
+	}
+	return precPrimary
+}
+
+// operandString prints n as an operand that must bind at least as tightly as
+// minPrec, adding parentheses if it does not.
+func operandString(n Node, minPrec int) string {
+	if precedenceOf(n) < minPrec {
+		return "(" + n.String() + ")"
+	}
+	return n.String()
+}
+
+// quoteString quotes s as a Soy string literal.
+func quoteString(s string) string {
+	var b bytes.Buffer
+	b.WriteByte('\'')
+	for _, ch := range s {
+		switch ch {
+		case '\\':
+			b.WriteString(`\\`)
+		case '\'':
+			b.WriteString(`\'`)
+		case '\n':
+			b.WriteString(`\n`)
+		case '\r':
+			b.WriteString(`\r`)
+		case '\t':
+			b.WriteString(`\t`)
+		case '\b':
+			b.WriteString(`\b`)
+		case '\f':
+			b.WriteString(`\f`)
+		default:
+			b.WriteRune(ch)
+		}
+	}
+	b.WriteByte('\'')
+	return b.String()
 }
 
 func (n *TernNode) Children() []Node {
